@@ -177,3 +177,28 @@ Theorem c01_whole_chain : forall bs h a,
       spec_lookup (szone_of a) t = Some (mkSL (al_cs al) (al_off al) (al_dst al) (al_abbr al)).
 Proof. exact c01_whole. Qed.
 Print Assumptions c01_whole_chain.
+
+From CCTZ Require Import SourceZone SourceZoneProofs.
+(* SOURCE-DERIVED zone queries (SourceZone.v, regenerated by gen/ast_translate_zone.py from clang's AST of the CURRENT
+   src/time_zone_info.cc on every run: control flow, comparisons, the relaxed-atomic hint logic, std::upper_bound with its
+   partition precondition as Err Precond, pointer-as-index arithmetic with Err OOB, the 400-year shift in checked 64-bit
+   arithmetic, assert as Err Precond).  An edit of the C++ changes SourceZone.v and breaks these obligations; the
+   hypotheses are only the C++ types (size_t: 0 <= x < 2^64).  fuel counts the recursive self-calls. *)
+Theorem src_break_time_tie : forall z hint t r,
+  size_t (vec_size (z_trans z)) -> size_t hint ->
+  break_time z hint t = OK r ->
+  forall fuel, (2 <= fuel)%nat -> sz_BreakTime fuel z hint t = OK r.
+Proof. exact sz_BreakTime_tie. Qed.
+Print Assumptions src_break_time_tie.
+Theorem src_local_time_tie : forall z t tr, sz_LocalTime_i64_tr z t tr = local_time_tr z t tr.
+Proof. exact sz_LocalTime_tr_tie. Qed.
+Print Assumptions src_local_time_tie.
+(* composed with the refinement theorem: the code as clang reads it now returns the integer-level lookup *)
+Theorem src_break_meets_spec : forall z h t fuel, zone_ok z = true -> int64 t ->
+  size_t (vec_size (z_trans z)) -> size_t h -> (2 <= fuel)%nat ->
+  (z_extended z = false \/ (forall l, last_opt (z_trans z) = Some l -> t < tr_time l)) ->
+  exists h' dst ab,
+    sz_BreakTime fuel z h t = OK (mkAL (civil_of_seconds (t + zoff (abs_zone z) t)) (zoff (abs_zone z) t) dst ab, h')
+    /\ info_of z (zid (abs_zone z) t) = OK (dst, ab).
+Proof. exact src_zone_break_meets_spec. Qed.
+Print Assumptions src_break_meets_spec.
